@@ -9,6 +9,19 @@ BASE = ("Trusted: Coq 8.16.1 kernel (vm_compute; no native_compute), no axioms (
 TECH = "machine-checked proof (Coq) + translator-regenerated tables + model/implementation correspondence"
 
 CLAIMS = {
+    "C02": ("PARTIAL. Coq theorems about the model of the marshal reader and writer (type-code dispatch, code-object field order with version guards, flag bit, depth limit, skip bound "
+            "regenerated from pyc.rs): the header is copied verbatim; the output is a function of the header and of the object tree the reader builds (not of flag / back-reference placement); "
+            "files of interpreters without reference flags (Python < 3.4) are never rewritten. The round trip 'the rewritten payload decodes, under CPython's rules for that version, to the same tree' "
+            "is not yet closed in Coq; it is decided by the byte-exact differential run (extracted model vs. the real handler, stdlib corpus and generated streams for 3.4..3.14) plus an independent "
+            "CPython-rules decoder comparing input and output trees (itself cross-checked against the sandbox's CPython 3.11).",
+            "Modelled, not verified: CPython's marshal rules per version (lib/pymarshal.py); bytecode semantics never interpreted; the model writes on dereferenced values and orders flags by "
+            "stream position (= offset order), validated byte-for-byte by the differential run.", "DESIGN.md section 5-C02"),
+    "C08": ("Coq theorems for every byte string: none of the modelled handlers (gzip, ar, javadoc, pyc incl. the recursive marshal reader with its depth limit, pyc-zero-mtime) can reach a panic; "
+            "a handler run ends without a result only if the handler's own code panics, hence the walk processes and counts every entry whatever the files contain; a file not reported Replaced is "
+            "byte- and metadata-identical afterwards (any handler, any single fault). The polynomial-cost statement is refuted on the model with computed instances (reference DAG, recorded finding F9). "
+            "Tied to the code by a class-level differential run over mutations of valid files of every modelled type, all 256 type codes, deep nesting, field maxima, and CLI runs on trees mixing "
+            "malformed (zip/jar included) and well-formed files, serial and -j3, debug (and release in the thorough tier).",
+            "Modelled, not verified: real stack depth and wall-clock time (the runs decide); the zip crate's parser on arbitrary bytes is exercised by the tree runs only.", "DESIGN.md section 5-C08"),
     "C06": ("Coq theorems over all byte strings and epochs about a model of Javadoc::process/process_line (two patterns as explicit matchers, chrono's %Y-%m-%d grammar, "
             "read_line/write with the original terminator; window constant, operators and pattern strings regenerated/compared by the translator): the output has the same lines with the "
             "same terminators (none/LF/CRLF); a line's content is unchanged or process_line's result; after the header window (line 15 or a line containing </head>) lines are verbatim; "
